@@ -64,6 +64,12 @@ def gen_content(rng, spec, cfg=None):
         reifications = [r for r in reifications if r[1] != 'include-91']
     bad_roles = models.invalid_roles(spec)
     pool = list(rng.pick(VAR_POOLS))
+    k = 0
+    while cfg.max_nodes > len(pool):
+        k += 1
+        name = f'{pool[k % 4]}{20 + k}'
+        if name not in pool:
+            pool.append(name)
     n = 1 + rng.randrange(cfg.max_nodes)
     vars_ = pool[:n] if rng.chance(0.5) else rng.sample(pool, n)
     triples = []
